@@ -215,11 +215,6 @@ Qed.
 End RelSP.
 
 (* ================= with_query_and_fragment behind the new path ================= *)
-Lemma opt47 {A} c (X Y : A) : (c =? 47) = false -> match Some c with Some 47 => X | _ => Y end = Y.
-Proof.
-  intros H. destruct c as [|p]; [reflexivity|]. do 6 (destruct p as [p|p|]; try reflexivity). discriminate H.
-Qed.
-
 (* base without authority whose serialization carries the "/." marker: the marker is kept when the new path starts
    with "//" and removed otherwise - the same result as for a base without marker *)
 Lemma wqf_noauth_marker_eq ovr sch T rest : starts_with [47] T = true ->
